@@ -8,16 +8,23 @@
 
      fs      : path -> Absent | File bytes | Dir       one flat directory; a path is a base name
      handle  : the file object self._fh (None, or open on the destination / on the temporary)
+     pend    : the name through which __exit__ reaches the temporary still holds its path
+               (`temp_path = None` after os.replace = step Forget; `if temp_path is not None` = IfTemp)
      adversary: may fail the k-th format_for_mcnp_input call (IllegalState), the j-th fh.write call
                (OSError), the child-card formatting, the open, the close, os.replace, os.remove and
                the warning hand-over after the with block — the crash points.
      an object of the problem is [Some lines] (what format_for_mcnp_input returns) or [None]
      (format_for_mcnp_input raises IllegalState by itself: an incomplete object).
+     __exit__ = w_exit (its `try` part, or all of it) then w_final (its `finally` part).
+     WriteLines true / Children true: every line is right-stripped (str.rstrip) before "\n".
 
    Also here (computable, no proofs): the reflective conditions on a step list that the theorems of
    Proofs/WriteProofs.v need, each with a witness printer used by the check when one breaks.
    NOT modelled: permission bits (CopyMode is a no-op), buffering inside the file object (a write
-   that succeeded is in the file), fsync / power loss, other processes, several directories. *)
+   that succeeded is in the file; a failing close loses nothing), symbolic links, fsync / power
+   loss, other processes, several directories.
+   Exported names used by other properties (C01, C09): writer, write_steps (Gen/Writer.v), w_body,
+   pieces, children_before_terminator, body_blocks_in_order, spec_render, run_Write. *)
 From Coq Require Import List String Ascii Bool Arith.
 From MPV Require Import Model.Wire.
 Import ListNotations.
@@ -40,7 +47,7 @@ Inductive sec := SMessage | STitle | SCells | SSurfaces | SData.
 Inductive ostep :=
 | Format        (* lines = obj.format_for_mcnp_input(self.mcnp_version) *)
 | Warn          (* if warning_catch: ... (bookkeeping on warning objects, no I/O) *)
-| WriteLines.   (* for line in lines: fh.write(line + "\n") *)
+| WriteLines (r : bool).   (* for line in lines: fh.write(line + "\n")   /   r: fh.write(line.rstrip() + "\n") *)
 (* __exit__: exc_type is None / is not None / the name holding the temporary's path is not None *)
 Inductive cond := Always | IfOk | IfErr | IfTemp.
 Inductive step :=
@@ -49,7 +56,7 @@ Inductive step :=
 | OpenW (t : target)     (* self._fh = open(<t>, "w") *)
 | CopyMode               (* if os.path.isfile(path): shutil.copymode(path, temp) *)
 | Loop (s : sec) (body : list ostep)   (* for obj in <section s>: body *)
-| Children               (* for line in self.cells._run_children_format_for_mcnp(...): fh.write(line + "\n") *)
+| Children (r : bool)    (* for line in self.cells._run_children_format_for_mcnp(...): fh.write(line[.rstrip()] + "\n") *)
 | Blank                  (* fh.write("\n") *)
 | Close                  (* self._fh.__exit__(...) ; self._fh = None *)
 | Replace (c : cond)     (* os.replace(temp, path) *)
@@ -123,6 +130,21 @@ Definition do_write (E : env) (s : string) (st : state) : state * result :=
   then (mkstate (fs st) (handle st) (cur st) (nfmt st) (S j) (pend st), Err OSError)
   else (mkstate (append_at E (fs st) (handle st) s) (handle st) (cur st) (nfmt st) (S j) (pend st), Ok).
 
+(* str.rstrip(): trailing characters c with c.isspace() are dropped; for code points below 256 these
+   are 9-13, 28-32, 133 and 160 *)
+Definition is_space (a : ascii) : bool :=
+  let n := nat_of_ascii a in
+  (Nat.leb 9 n && Nat.leb n 13) || (Nat.leb 28 n && Nat.leb n 32) || Nat.eqb n 133 || Nat.eqb n 160.
+Fixpoint rstrip (s : string) : string :=
+  match s with
+  | EmptyString => EmptyString
+  | String a r => match rstrip r with
+                  | EmptyString => if is_space a then EmptyString else String a EmptyString
+                  | r' => String a r'
+                  end
+  end.
+Definition strip_if (r : bool) (ls : list string) : list string := if r then map rstrip ls else ls.
+
 Fixpoint write_lines (E : env) (ls : list string) (st : state) : state * result :=
   match ls with
   | [] => (st, Ok)
@@ -146,7 +168,7 @@ Definition exec_ostep (E : env) (o : object) (os : ostep) (st : state) : state *
   match os with
   | Format => do_format E o st
   | Warn => (st, Ok)
-  | WriteLines => write_lines E (cur st) st
+  | WriteLines r => write_lines E (strip_if r (cur st)) st
   end.
 
 Fixpoint exec_osteps (E : env) (o : object) (l : list ostep) (st : state) : state * result :=
@@ -197,10 +219,10 @@ Definition exec_step (E : env) (ok : bool) (s : step) (st : state) : state * res
       end
   | CopyMode => (st, Ok)
   | Loop sc body => exec_objs E body (p_objs (e_prob E) sc) st
-  | Children =>
+  | Children r =>
       match p_children (e_prob E) with
       | None => (st, Err IllegalState)
-      | Some ls => if a_child (e_adv E) then (st, Err IllegalState) else write_lines E ls st
+      | Some ls => if a_child (e_adv E) then (st, Err IllegalState) else write_lines E (strip_if r ls) st
       end
   | Blank => do_write E nl st
   | Close =>
@@ -251,7 +273,8 @@ Definition is_ok (r : result) : bool := match r with Ok => true | Err _ => false
 (* with new_file.open("w") as fh: <body>  ;  <post>
    - an exception in open() propagates, __exit__ does not run;
    - __exit__ runs after the body whatever happened; its `finally` part runs whatever happened in its
-     `try` part ([ok] there: nothing is propagating, neither from the body nor from the try part);
+     `try` part; in both parts IfOk / IfErr test exc_type, i.e. whether the BODY raised (an exception
+     of the try part is not visible to the finally part);
      an exception raised by the finally part replaces the one of the try part, which replaces the
      one of the body; __exit__ returns the (None) status of the file's own __exit__, so the body's
      exception propagates;
@@ -262,7 +285,7 @@ Definition run_state (w : writer) (E : env) (st0 : state) : state * result :=
   | (s1, Ok) =>
       let '(s2, r2) := exec_list E true (w_body w) s1 in
       let '(s3, r3) := exec_list E (is_ok r2) (w_exit w) s2 in
-      let '(s4, r4) := exec_list E (is_ok r2 && is_ok r3) (w_final w) s3 in
+      let '(s4, r4) := exec_list E (is_ok r2) (w_final w) s3 in
       match r4, r3, r2 with
       | Err e, _, _ => (s4, Err e)
       | Ok, Err e, _ => (s4, Err e)
@@ -298,34 +321,42 @@ Definition write_with_failure_at (x : fault) (w : writer) (d t : path) (ov : boo
 (* ---------------------------------------------------------------- what a complete file is *)
 Definition lines_of (o : object) : list string := match o with Some ls => ls | None => [] end.
 Definition cat_lines (ls : list string) : string := String.concat "" (map (fun l => l ++ nl) ls).
-Definition cat_objs (os : list object) : string := String.concat "" (map (fun o => cat_lines (lines_of o)) os).
+Definition cat_objs_r (r : bool) (os : list object) : string :=
+  String.concat "" (map (fun o => cat_lines (strip_if r (lines_of o))) os).
+Definition cat_objs (os : list object) : string := cat_objs_r false os.
 
 (* the file MCNP expects: [message block] title, cell block, blank, surface block, blank, data block
    including the cell-modifier cards made from the cells, blank (and MontePy's extra final blank) *)
-Definition spec_render (p : problem) : string :=
-  cat_objs (p_objs p SMessage) ++ cat_objs (p_objs p STitle)
-  ++ cat_objs (p_objs p SCells) ++ nl
-  ++ cat_objs (p_objs p SSurfaces) ++ nl
-  ++ cat_objs (p_objs p SData) ++ cat_lines (lines_of (p_children p)) ++ nl
+Definition spec_render_r (r : bool) (p : problem) : string :=
+  cat_objs_r r (p_objs p SMessage) ++ cat_objs_r r (p_objs p STitle)
+  ++ cat_objs_r r (p_objs p SCells) ++ nl
+  ++ cat_objs_r r (p_objs p SSurfaces) ++ nl
+  ++ cat_objs_r r (p_objs p SData) ++ cat_lines (strip_if r (lines_of (p_children p))) ++ nl
   ++ nl.
+(* what the current source writes: every line right-stripped *)
+Definition spec_render (p : problem) : string := spec_render_r true p.
 
 (* symbolic content of a body: which pieces are written in which order *)
-Inductive piece := PSec (s : sec) | PChildren | PNl | PBad.
+Inductive piece := PSec (s : sec) (r : bool) | PChildren (r : bool) | PNl | PBad.
 Definition is_warn (o : ostep) := match o with Warn => true | _ => false end.
 Definition ostep_eqb (a b : ostep) : bool :=
-  match a, b with Format, Format | Warn, Warn | WriteLines, WriteLines => true | _, _ => false end.
+  match a, b with
+  | Format, Format | Warn, Warn => true
+  | WriteLines x, WriteLines y => Bool.eqb x y
+  | _, _ => false
+  end.
 Fixpoint ostep_list_eqb (a b : list ostep) : bool :=
   match a, b with
   | [], [] => true
   | x :: r, y :: s => ostep_eqb x y && ostep_list_eqb r s
   | _, _ => false
   end.
-Definition loop_ok (b : list ostep) : bool :=
-  ostep_list_eqb (filter (fun o => negb (is_warn o)) b) [Format; WriteLines].
+Definition loop_ok (r : bool) (b : list ostep) : bool :=
+  ostep_list_eqb (filter (fun o => negb (is_warn o)) b) [Format; WriteLines r].
 Definition piece_of (s : step) : list piece :=
   match s with
-  | Loop sc b => if loop_ok b then [PSec sc] else [PBad]
-  | Children => [PChildren]
+  | Loop sc b => if loop_ok true b then [PSec sc true] else if loop_ok false b then [PSec sc false] else [PBad]
+  | Children r => [PChildren r]
   | Blank => [PNl]
   | CopyMode => []
   | _ => [PBad]
@@ -333,8 +364,8 @@ Definition piece_of (s : step) : list piece :=
 Definition pieces (l : list step) : list piece := flat_map piece_of l.
 Definition interp_piece (p : problem) (pc : piece) : string :=
   match pc with
-  | PSec s => cat_objs (p_objs p s)
-  | PChildren => cat_lines (lines_of (p_children p))
+  | PSec s r => cat_objs_r r (p_objs p s)
+  | PChildren r => cat_lines (strip_if r (lines_of (p_children p)))
   | PNl => nl
   | PBad => ""
   end.
@@ -347,8 +378,9 @@ Definition sec_eqb (a b : sec) : bool :=
   end.
 Definition piece_eqb (a b : piece) : bool :=
   match a, b with
-  | PSec x, PSec y => sec_eqb x y
-  | PChildren, PChildren | PNl, PNl | PBad, PBad => true
+  | PSec x r, PSec y q => sec_eqb x y && Bool.eqb r q
+  | PChildren r, PChildren q => Bool.eqb r q
+  | PNl, PNl | PBad, PBad => true
   | _, _ => false
   end.
 Fixpoint piece_list_eqb (a b : list piece) : bool :=
@@ -357,8 +389,8 @@ Fixpoint piece_list_eqb (a b : list piece) : bool :=
   | x :: r, y :: s => piece_eqb x y && piece_list_eqb r s
   | _, _ => false
   end.
-Definition canonical_pieces : list piece :=
-  [PSec SMessage; PSec STitle; PSec SCells; PNl; PSec SSurfaces; PNl; PSec SData; PChildren; PNl; PNl].
+Definition canonical_pieces (r : bool) : list piece :=
+  [PSec SMessage r; PSec STitle r; PSec SCells r; PNl; PSec SSurfaces r; PNl; PSec SData r; PChildren r; PNl; PNl].
 
 (* ---------------------------------------------------------------- reflective conditions *)
 Definition is_guard (s : step) : bool := match s with GuardExists | GuardIsDir => true | _ => false end.
@@ -445,19 +477,22 @@ Definition may_leave_temp (w : writer) (a : adversary) : bool :=
   if cleanup_total w then a_remove a else a_close a || a_replace a || a_remove a.
 
 (* the body writes the blocks in MCNP's order, nothing else, through fh.write only *)
-Definition body_blocks_in_order (w : writer) : bool := piece_list_eqb (pieces (w_body w)) canonical_pieces.
+(* every line is right-stripped when it is written / no line is *)
+Definition w_strips (w : writer) : bool := piece_list_eqb (pieces (w_body w)) (canonical_pieces true).
+Definition body_blocks_in_order (w : writer) : bool :=
+  w_strips w || piece_list_eqb (pieces (w_body w)) (canonical_pieces false).
 
 (* the cell-modifier cards made from the cells come right after the data inputs, before the blank
    line that ends the data block (MCNP ignores everything after that line) — also serves C09 *)
 Fixpoint after_data (l : list piece) : option (list piece) :=
   match l with
   | [] => None
-  | PSec SData :: r => Some r
+  | PSec SData _ :: r => Some r
   | _ :: r => after_data r
   end.
 Definition children_before_terminator (w : writer) : bool :=
   match after_data (pieces (w_body w)) with
-  | Some (PChildren :: PNl :: _) => true
+  | Some (PChildren _ :: PNl :: _) => true
   | _ => false
   end.
 
@@ -510,7 +545,8 @@ Fixpoint parse_osteps (s : string) : option (list ostep) :=
   | EmptyString => Some []
   | String a r =>
       match (if Ascii.eqb a "F" then Some Format else if Ascii.eqb a "N" then Some Warn
-             else if Ascii.eqb a "W" then Some WriteLines else None), parse_osteps r with
+             else if Ascii.eqb a "W" then Some (WriteLines false)
+             else if Ascii.eqb a "R" then Some (WriteLines true) else None), parse_osteps r with
       | Some x, Some xs => Some (x :: xs)
       | _, _ => None
       end
@@ -520,7 +556,8 @@ Definition parse_step (s : string) : option step :=
   | "GE" => Some GuardExists
   | "GD" => Some GuardIsDir
   | "CM" => Some CopyMode
-  | "CH" => Some Children
+  | "CH" => Some (Children false)
+  | "CR" => Some (Children true)
   | "BL" => Some Blank
   | "CL" => Some Close
   | "HW" => Some HandleWarnings
@@ -656,18 +693,23 @@ Fixpoint first_bad {A} (f : A -> bool) (l : list A) (i : nat) : option (nat * A)
 Definition show_target (t : target) := match t with Dest => "D" | Temp => "T" end.
 Definition show_cond (c : cond) := match c with Always => "A" | IfOk => "O" | IfErr => "E" | IfTemp => "P" end.
 Definition show_sec (s : sec) := match s with SMessage => "M" | STitle => "T" | SCells => "C" | SSurfaces => "S" | SData => "D" end.
-Definition show_ostep (o : ostep) := match o with Format => "F" | Warn => "N" | WriteLines => "W" end.
+Definition show_ostep (o : ostep) :=
+  match o with Format => "F" | Warn => "N" | WriteLines false => "W" | WriteLines true => "R" end.
 Definition show_step (s : step) : string :=
   match s with
   | GuardExists => "GE" | GuardIsDir => "GD" | OpenW t => "O" ++ show_target t | CopyMode => "CM"
   | Loop sc b => "L" ++ show_sec sc ++ String.concat "" (map show_ostep b)
-  | Children => "CH" | Blank => "BL" | Close => "CL"
+  | Children false => "CH" | Children true => "CR" | Blank => "BL" | Close => "CL"
   | Replace c => "RP" ++ show_cond c | Remove c t => "RM" ++ show_cond c ++ show_target t
   | Forget c => "FG" ++ show_cond c
   | HandleWarnings => "HW"
   end.
 Definition show_piece (p : piece) : string :=
-  match p with PSec s => "sec" ++ show_sec s | PChildren => "children" | PNl => "blank" | PBad => "BAD" end.
+  match p with
+  | PSec s r => "sec" ++ show_sec s ++ (if r then "r" else "")
+  | PChildren r => "children" ++ (if r then "r" else "")
+  | PNl => "blank" | PBad => "BAD"
+  end.
 Definition witness_steps (f : step -> bool) (l : list step) : string :=
   match first_bad f l 0 with
   | None => "-"
@@ -693,6 +735,7 @@ Definition diagnose (w : writer) : string :=
     "temp_name_distinct=" ++ show_bool (temp_name_distinct w) ++ ":parts=" ++ show_nat (List.length (w_temp w));
     "writer_ok=" ++ show_bool (writer_ok w) ++ ":-";
     "cleanup_total=" ++ show_bool (cleanup_total w) ++ ":-";
+    "w_strips=" ++ show_bool (w_strips w) ++ ":-";
     "all_formats_precede_open=" ++ show_bool (all_formats_precede_open w) ++ ":"
        ++ witness_steps (fun s => negb (is_loop s)) (w_body w)
   ].
@@ -701,7 +744,7 @@ Definition diagnose (w : writer) : string :=
      run <writer> <ov:0|1> <pid-hex> <dest-hex> <fs> <problem> <adversary>
         -> <result> d=<node> t=<node> o=<others unchanged:0|1> nf=<format calls> nw=<write calls> tn=<temp name hex>
      check <writer>    -> diagnosis
-     render <problem>  -> hex of spec_render *)
+     render <strip:0|1> <problem>  -> hex of spec_render_r *)
 Definition run_Write (req : string) : string :=
   match split_lin " "%char req with
   | ["run"; ws; ov; pid; dn; fss; ps; advs] =>
@@ -725,7 +768,10 @@ Definition run_Write (req : string) : string :=
       end
   | ["check"; ws] =>
       match parse_writer ws with Some w => diagnose w | None => "parse:writer" end
-  | ["render"; ps] =>
-      match parse_problem ps with Some p => hex_encode (spec_render p) | None => "parse:problem" end
+  | ["render"; rs; ps] =>
+      match parse_problem ps with
+      | Some p => hex_encode (spec_render_r (String.eqb rs "1") p)
+      | None => "parse:problem"
+      end
   | _ => "parse:request"
   end.
